@@ -581,6 +581,19 @@ def gen_portfolio(ch, feats):
             assets.append(dict(type="SimpleContract", name="gas", nodes=["nf"], price="ec",
                                min_cap=r(0.0, g), max_cap=r(80.0, g)))
             assets.append(gen_plant(ch, g, "chp", ["n1", "nh", "nf"], feats, kind="CHPAsset"))
+    if feats.get("common_window"):
+        # one life time shared by every asset that can have one (a portfolio commissioned late / decommissioned early as a whole):
+        # in a split run whole intervals are then without any active asset
+        cw = ch.pick("all.window", [None] + [window_menu(T)[i] for i in feats["common_window"]])
+        if cw is not None:
+            s_, e_ = resolve_window(g, cw)
+            for a_ in assets:
+                if a_["type"] in ("OrderBook", "LinkedAsset") or a_.get("start") or a_.get("end"):
+                    continue
+                if s_:
+                    a_["start"] = s_
+                if e_:
+                    a_["end"] = e_
     mode = ch.pick("mode", feats.get("modes", ["mono"]))
     scn = finish(gj, assets, prices, mode=mode)
     if g.tz and any(a["type"] == "OrderBook" for a in assets):
